@@ -174,7 +174,7 @@ def run(ctx):
     SLICE_TABLE = {
         "qbase::cid::connection_id::ConnectionId::from_slice": "callers bound the length to <= 20 first (be_connection_id_with_len, be_parameter_value); see R2 table",
         "<qbase::cid::connection_id::ConnectionId as core::ops::deref::Deref>::deref": "type invariant len <= 20, established by from_slice/be_connection_id",
-        "qbase::frame::io::complete_frame::{closure#0}": "offsets are `raw.len() - remain.len()` of the same buffer; body lengths come from nom take(len) that already succeeded",
+        "qbase::frame::io::complete_frame::{closure#0}": "offsets are `raw.len() - remain.len()` of the same buffer; the body-length guards are decided by R8",
         "qbase::frame::path_challenge::PathChallengeFrame::from_slice": "fed by take(8)",
         "qbase::frame::path_response::PathResponseFrame::from_slice": "fed by take(8)",
         "qbase::packet::header::long::Retry::new": "integrity tag fed by take(16)",
@@ -223,6 +223,39 @@ def run(ctx):
         ctx.ob("R7", "%s|%s" % (fn, "+".join(sorted(set(a for a, _, _ in lst)))), allg or reason is not None, b.where(lst[0][2]),
                "%d call(s) %s; dominated by a length comparison: %s; reviewed reason: %s" % (
                    len(lst), sorted(set(a for a, _, _ in lst)), allg, reason or "NONE — an attacker-chosen short input panics the task here"))
+    # ---------------------------------------------------------------- R8: body slices of data-carrying frames
+    ctx.rule("R8", "data-carrying frames (CRYPTO / STREAM / DATAGRAM with length): the body is sliced out of the packet "
+                   "(`raw.slice(start..start+len)`, `&input[len..]`) only under `remainder.len() >= len`, where the remainder is the "
+                   "nom input left after the frame header — not the whole packet buffer, which still contains the header")
+    cfc = ctx.anchor("R8", "qbase::frame::io::complete_frame::{closure#0}")
+    if cfc:
+        sl = []
+        for i, t in cfc.calls():
+            nm = callee(t)
+            if re.search(r"bytes::Bytes::slice$", nm) and len(t["args"]) == 2:
+                q = op_place(t["args"][1])
+                ty = cfc.local_ty(q[0]) if q else ""
+                if "RangeFrom" in ty or "RangeFull" in ty:
+                    continue   # to the end of the buffer: bounded by construction
+                sl.append((i, t, "Bytes::slice"))
+            elif re.search(r"ops::index::Index<.*> for \[T\]>::index$", nm):
+                sl.append((i, t, "index"))
+        ctx.floor("R8", "bounded body slices in complete_frame", len(sl), 6)
+        for n, (i, t, api) in enumerate(sl):
+            ok = False
+            seen = []
+            for (sw, op, x, y) in guard_chain(cfc, i):
+                rx_, ry_ = value_roles(cfc, x), value_roles(cfc, y)
+                seen.append("%s %s %s" % (sorted(rx_), op, sorted(ry_)))
+                rem_x = rx_ == {"call:<impl [T]>::len"}
+                rem_y = ry_ == {"call:<impl [T]>::len"}
+                if rem_x and not rem_y and op in ("Ge", "Gt"):
+                    ok = True
+                if rem_y and not rem_x and op in ("Le", "Lt"):
+                    ok = True
+            ctx.ob("R8", "%s|%s #%d under remainder.len() >= body length" % (cfc.short, api, n + 1), ok, cfc.where(t["line"]),
+                   "comparisons deciding this slice: %s — measuring the whole packet (Bytes::len) instead of the remainder lets a body "
+                   "length that overshoots by up to the header size through, and the slice panics on attacker-chosen input" % seen[:3])
     # ---------------------------------------------------------------- R6: dispatcher covers what the decoder admits
     ctx.rule("R6", "every frame kind that FrameType::belongs_to admits into a packet type has a non-panicking arm in that "
                    "space's frame dispatcher (the Initial and Handshake dispatchers end in `_ => unreachable!()`)")
